@@ -149,7 +149,8 @@ def drain(eng, st, it):
         cap = eng.unwind
         return [(simp(z3.ULT(bv(i, w), end)), bv(i, w)) for i in range(c0, c0 + cap + 1)]
     if k == "copied":
-        return [(c, deref(eng, st, v) if isinstance(v, VRef) else v) for c, v in drain(eng, st, a["inner"])]
+        # copied()/cloned() remove exactly one reference level
+        return [(c, eng.load(st, v) if isinstance(v, VRef) else v) for c, v in drain(eng, st, a["inner"])]
     if k == "rev":
         inner = drain(eng, st, a["inner"])
         return list(reversed(inner))
@@ -205,6 +206,11 @@ def drain(eng, st, it):
             out.append((simp(z3.And(c, z3.UGE(cnt, n))), v))
             cnt = simp(cnt + z3.If(c, bv(1, 64), bv(0, 64)))
         return out
+    if k == "condlist":
+        p0 = as_int(a["pos"])
+        if p0 is None:
+            raise SymError("drain of a conditional list at a symbolic position")
+        return list(a["items"][p0:])
     if k == "windows":
         v, r = _seq_of(eng, st, a["src"])
         ln = _len_of(v)
@@ -364,7 +370,7 @@ def _next_of(eng, st, it):
         return it.with_(cur=simp(z3.If(cond, cur + 1, cur))), cond, cur
     if k == "copied":
         ni, c, v = _next_of(eng, st, a["inner"])
-        return it.with_(inner=ni), c, (deref(eng, st, v) if isinstance(v, VRef) else v)
+        return it.with_(inner=ni), c, (eng.load(st, v) if isinstance(v, VRef) else v)
     if k == "map":
         ni, c, v = _next_of(eng, st, a["inner"])
         if v is None:
@@ -379,6 +385,22 @@ def _next_of(eng, st, it):
         if not isinstance(idx, int):
             raise SymError("enumerate with symbolic index")
         return it.with_(inner=ni, idx=idx + 1), c, VStruct([bv(idx, 64), v])
+    if k == "condlist":
+        # items present under symbolic conditions: the next element is the first present one at or after `pos`
+        items, pos = a["items"], a["pos"]
+        n = len(items)
+        if n == 0:
+            return it, z3.BoolVal(False), None
+        found = z3.BoolVal(False)
+        val = items[-1][1]
+        newpos = bv(n, 64)
+        for j in range(n - 1, -1, -1):
+            c, v = items[j]
+            here = simp(z3.And(c, z3.ULE(pos, bv(j, 64))))
+            val = merge(here, v, val)
+            newpos = simp(z3.If(here, bv(j + 1, 64), newpos))
+            found = simp(z3.Or(here, found))
+        return it.with_(pos=newpos), found, val
     if k == "list":
         items, pos = a["items"], a["pos"]
         if pos >= len(items):
@@ -430,6 +452,9 @@ def _vec_push(eng, st, args, dty, callee, m):
         eng.store(st, r, VSeq(list(v.elems) + [x], bv(cl + 1, 64)))
         return UNIT
     limit = getattr(eng, "seq_cap", 12)
+    in_map_slot = any(isinstance(pe, tuple) and pe[0] == "k" for pe in r.path)
+    if in_map_slot:
+        limit = len(v.elems)  # values stored in an SMT-array map keep their modelled shape: no growth, capacity exhaustion is an obligation
     if len(v.elems) >= limit:
         eng.oblige(st, "unwind:sequence capacity bound reached in Vec::push", ln == bv(len(v.elems), 64), kind="unwind")
         elems = list(v.elems)
